@@ -17,7 +17,9 @@ spec = {
 REF = ['o', name]   block object            ['n', name]   block name
       ['!', name]   '_not_NAME' shortcut    ['c', VAL]    raw constant   ['C', VAL]  Const(VAL)
 EV  = {'dest': name, 'etype': str, 'byname': bool,
-       'filters': [['ifo', style, name] | ['addout', key, style, name]]}   style in o n !
+       'filters': [['ifo', style, name] | ['addout', key, style, name]],   style in o n !
+       'cond': {'t': etype|None, 'f': etype|None}}     optional: EventCond(t, f); the event
+       type 'bogus' is unknown to every destination (non-fatal EdzedUnknownEvent)
 VAL = JSON scalar | {'t': [VAL]} (tuple)
 """
 
@@ -197,11 +199,16 @@ def node_num(spec):
         elif typ == 'Func':
             res = bool(FUNC_NUM.get(cb.get('func')))
             if cb.get('func') == 'first':
-                # the first positional (or named) input itself - with unpack only
-                refs = [r for _n, _i, r in iter_refs(cb)]
-                res = (bool(refs) and bool(cb.get('unpack', True))
-                       and all(ref_num(r, seen) for r in refs)
-                       and not any(isinstance(v, dict) for v in (cb.get('kw') or {}).values()))
+                # the first positional (else the first named) input itself - with unpack only
+                pos = cb.get('pos') or []
+                kwv = cb.get('kw') or {}
+                if not cb.get('unpack', True):
+                    res = False
+                elif pos:
+                    res = ref_num(pos[0], seen)
+                else:
+                    res = bool(kwv) and not any(isinstance(v, dict) for v in kwv.values()) \
+                        and all(ref_num(v, seen) for v in kwv.values())
         else:
             res = False
         num[name] = res
@@ -209,6 +216,17 @@ def node_num(spec):
     for name in cbs:
         calc(name, frozenset())
     return num
+
+
+BOGUS = 'bogus'     # an event type no block knows
+
+
+def ev_etypes(ev):
+    """The event types an EV can deliver (None branches of a conditional event dropped)."""
+    cond = ev.get('cond')
+    if cond:
+        return [e for e in (cond.get('t'), cond.get('f')) if e is not None]
+    return [ev['etype']]
 
 
 def effective_order(spec):
@@ -291,13 +309,16 @@ def validate_spec(spec):
                 elif dest in srcs:
                     edges[dest].add(blk['name'])
                     d = srcs[dest]
-                    if d['kind'] == 'counter':
-                        if ev['etype'] not in ('inc', 'dec', 'put', 'reset'):
-                            raise PlanError('counter event')
-                        if ev['etype'] == 'put' and not num.get(blk['name']):
-                            raise PlanError('counter put needs a number')
-                    elif ev['etype'] != 'put':
-                        raise PlanError('input event')
+                    for etype in ev_etypes(ev):
+                        if etype == BOGUS and ev.get('cond'):
+                            continue
+                        if d['kind'] == 'counter':
+                            if etype not in ('inc', 'dec', 'put', 'reset'):
+                                raise PlanError('counter event')
+                            if etype == 'put' and not num.get(blk['name']):
+                                raise PlanError('counter put needs a number')
+                        elif etype != 'put':
+                            raise PlanError('input event')
                 else:
                     raise PlanError('event destination missing')
                 for flt in ev.get('filters', []):
@@ -311,8 +332,27 @@ def validate_spec(spec):
             if s['kind'] == 'input' and s.get('dom') in ('bool', 'int'):
                 for blk in list(spec['sources']) + list(spec['cblocks']):
                     for ev in blk.get('events', []):
-                        if ev['dest'] == s['name'] and not num.get(blk['name']):
+                        if ev['dest'] == s['name'] and 'put' in ev_etypes(ev) \
+                                and not num.get(blk['name']):
                             raise PlanError('non-numeric event into a numeric input')
+        # an event that fails with the non-fatal EdzedUnknownEvent is only reachable from the
+        # driver: its owner is a source that no other block sends events to, and the value the
+        # owner is initialised with takes the other branch
+        incoming = set()
+        for blk in list(spec['sources']) + list(spec['cblocks']):
+            for ev in blk.get('events', []):
+                incoming.add(ev['dest'])
+        for blk in list(spec['sources']) + list(spec['cblocks']):
+            for ev in blk.get('events', []):
+                cond = ev.get('cond')
+                if cond is None:
+                    continue
+                if BOGUS in (cond.get('t'), cond.get('f')):
+                    if blk['name'] not in srcs or blk['name'] in incoming \
+                            or blk.get('kind') == 'ainit':
+                        raise PlanError('failing event of a block that is not driver-only')
+                    if cond.get('t' if dec(blk['init']) else 'f') == BOGUS:
+                        raise PlanError('the initial value would take the failing branch')
         state = {}
 
         def visit(n):
@@ -467,8 +507,169 @@ def gen_spec(rng, *, max_cblocks=8, ainit=None):
         if not s['fed'] and s['kind'] != 'ainit' and fed and rng.random() < 0.2:
             s['events'].append({'dest': rng.choice(fed)['name'], 'etype': 'put', 'byname': True,
                                 'filters': []})
+    add_failing_events(rng, spec)
     finish_spec(rng, spec)
     return spec
+
+
+def add_failing_events(rng, spec, prob=0.2):
+    """
+    Give some driver-only sources an on_output event whose type depends on the new value
+    (EventCond) and is unknown to the destination for one of the two edges: the sender of the
+    external event gets the documented non-fatal EdzedUnknownEvent, the output has changed.
+    """
+    sources = spec['sources']
+    incoming = set()
+    for blk in list(sources) + list(spec['cblocks']):
+        for ev in blk.get('events', []):
+            incoming.add(ev['dest'])
+    owners = [s for s in sources if s['name'] not in incoming and s['kind'] != 'ainit'
+              and rng.random() < prob][:2]
+    if not owners:
+        return
+    num = node_num(spec)
+    for s in owners:
+        dests = [d for d in sources if d not in owners and d['kind'] != 'ainit']
+        if not dests or rng.random() < 0.4:
+            d = {'name': f"s{len(sources)}", 'kind': 'counter', 'dom': 'int', 'fed': True,
+                 'modulo': rng.choice([None, 4]), 'init': 0, 'events': []}
+            sources.append(d)
+        else:
+            d = rng.choice(dests)
+        if d['kind'] == 'counter':
+            good = rng.choice(['inc', 'inc', 'dec', None] + (['put'] if num[s['name']] else []))
+        elif d.get('dom') == 'mixed' or num[s['name']]:
+            good = rng.choice(['put', None])
+        else:
+            good = None
+        bad_branch = 'f' if dec(s['init']) else 't'
+        cond = {'t': good, 'f': good}
+        cond[bad_branch] = BOGUS
+        ev = {'dest': d['name'], 'etype': 'cond', 'cond': cond, 'byname': True, 'filters': []}
+        # position among the other on_output events matters (the later ones are not sent)
+        s['events'].insert(rng.randint(0, len(s['events'])), ev)
+
+
+def gen_chain_spec(rng):
+    """
+    Acyclic circuit with a chain of event feedback: q0 -> f0 => q1 -> f1 => q2 ... ('=>' is an
+    on_output 'put' event of a CBlock to the next source) and 'wide' CBlocks over q0..q_span
+    which are evaluated again in every round up to their span. A forwarder f_i may also read
+    wide blocks of span <= i (still acyclic through events): the simulator's ordering
+    heuristic then evaluates everything that is pending before the next round starts, so one
+    external change of q0 needs up to (chain length) evaluations of each wide block in a
+    single burst. Bystander sources make the ratio SBlocks : CBlocks vary.
+    """
+    k = rng.choice([2, 3, 4, 4, 5, 5, 6, 6])
+    sources, cblocks = [], []
+    for i in range(k):
+        sources.append({'name': f"q{i}", 'kind': 'input', 'dom': 'int', 'init': 0,
+                        'fed': i > 0, 'events': []})
+    chain = [s['name'] for s in sources]
+    spec = {'sources': sources, 'cblocks': cblocks, 'recorders': [], 'order': []}
+    for i in range(rng.choice([0, 0, 1, 2, 3, 4, 6])):
+        sources.append(gen_source(rng, f"z{i}"))
+    others = [s['name'] for s in sources if s['name'] not in chain]
+    num = node_num(spec)
+    wide = []       # (name, span)
+    for j in range(rng.choice([1, 2, 3, 3, 4, 5, 6])):
+        span = k - 1 if rng.random() < 0.5 else rng.randrange(k)
+        typ = rng.choice(['And', 'Or', 'Xor', 'Func', 'Func', 'Func'])
+        ins = [c for c in chain[:span] if rng.random() < 0.85] + [chain[span]]
+        refs = [['o', c] for c in ins]
+        func = rng.choice(['pack', 'count', 'sum', 'repr', 'types']) if typ == 'Func' else None
+        if others and rng.random() < 0.3:
+            cand = [o for o in others if num[o] or func != 'sum']
+            if cand:
+                refs.append(['o', rng.choice(cand)])
+        if wide and rng.random() < 0.25:
+            cand = [w for w, sp in wide if sp <= span and (num[w] or func != 'sum')]
+            if cand:
+                refs.append(['o', rng.choice(cand)])
+        if rng.random() < 0.2:
+            refs.append(['!', rng.choice(chain[:span + 1])])
+        rng.shuffle(refs)
+        cb = {'name': f"w{j}", 'type': typ, 'pos': refs, 'kw': {}, 'events': []}
+        if typ == 'Func':
+            cb['func'] = func
+            cb['unpack'] = rng.random() < 0.6
+            if rng.random() < 0.3 and len(refs) > 2:
+                cb['kw'] = {'g': {'g': refs[2:]}}
+                cb['pos'] = refs[:2]
+        cblocks.append(cb)
+        wide.append((cb['name'], span))
+        num = node_num(spec)
+    deps = rng.random() < 0.7
+    for i in range(k - 1):
+        cb = {'name': f"f{i}", 'type': 'Func', 'func': 'first', 'unpack': True,
+              'pos': [['o', chain[i]]], 'kw': {}, 'events': [
+                  {'dest': chain[i + 1], 'etype': 'put', 'byname': True, 'filters': []}]}
+        gates = [w for w, sp in wide if sp <= i]
+        if deps and not gates and rng.random() < 0.8:
+            # a gate of its own: a wide block over q0..q_i
+            gname = f"g{i}"
+            cblocks.append({'name': gname, 'type': rng.choice(['Or', 'Xor', 'And']),
+                            'pos': [['o', c] for c in chain[:i + 1]], 'kw': {}, 'events': []})
+            wide.append((gname, i))
+            gates = [gname]
+        if deps and gates:
+            sub = [w for w in gates if rng.random() < 0.7] or [rng.choice(gates)]
+            cb['kw'] = {'g': {'g': [['o', w] for w in sub]}}
+        elif rng.random() < 0.3:
+            cb = dict(cb, type='Override', null=0, pos=None,
+                      kw={'input': ['o', chain[i]], 'override': ['c', False]})
+            cb.pop('func'), cb.pop('unpack')
+        cblocks.append(cb)
+    if others and rng.random() < 0.5:
+        cblocks.append({'name': 'wz', 'type': rng.choice(['Or', 'Xor']),
+                        'pos': [['o', o] for o in others[:4]], 'kw': {}, 'events': []})
+    add_failing_events(rng, spec, prob=0.1)
+    finish_spec(rng, spec)
+    return spec
+
+
+# block names: ordinary ones and ones that begin with the characters of '_not_', that are
+# prefixes / suffixes of each other, that contain 'not'
+NAME_POOL = ['temp', 'emp', 'mp', 'out', 'ut', 'on', 'off', 'n', 'o', 't', 'no', 'not_x', 'x',
+             'n1', 'tnt', 'to', 'toto', 'onto', 'noon', 'tt', 'o_o', 'ton', 'tone', 'one', 'note',
+             'e', 'src', 'enable', 'door', 'b7', 'not', 'knot', 'nota', 'a_not_b', 'ot', 'tn',
+             'On', 'T', 'n_', 'o1', 't2', 'lamp', 'amp', 'input', 'put', 'nn', 'oo']
+KEEP_NAMES = ('fz',)
+
+
+def rename_plan(rng, plan, prob=0.7):
+    """Give a random subset of the blocks names from NAME_POOL (consistently in the plan)."""
+    spec = plan['spec']
+    names = [n for n in spec_names(spec) if n not in KEEP_NAMES]
+    pool = [n for n in NAME_POOL if n not in names]
+    rng.shuffle(pool)
+    mapping = {}
+    for n in names:
+        if pool and rng.random() < prob:
+            mapping[n] = pool.pop()
+    if not mapping:
+        return
+    ren = lambda n: mapping.get(n, n)      # noqa: E731
+    for blk in list(spec['sources']) + list(spec['cblocks']):
+        blk['name'] = ren(blk['name'])
+        for ev in blk.get('events', []):
+            ev['dest'] = ren(ev['dest'])
+            for flt in ev.get('filters', []):
+                flt[-1] = ren(flt[-1])
+    for cb in spec['cblocks']:
+        for _n, _i, ref in iter_refs(cb):
+            if ref[0] in 'on!':
+                ref[1] = ren(ref[1])
+    spec['recorders'] = [ren(n) for n in spec.get('recorders', [])]
+    spec['order'] = [ren(n) for n in spec.get('order', [])]
+    for op in list(plan.get('ops', [])) + list(plan.get('pre', [])):
+        if 'src' in op:
+            op['src'] = ren(op['src'])
+    inv = plan.get('invalid')
+    if inv:
+        for key in ('at', 'a', 'b', 'c'):
+            if inv.get(key) is not None:
+                inv[key] = ren(inv[key])
 
 
 def finish_spec(rng, spec):
@@ -572,12 +773,16 @@ def gen_send(rng, src):
             'value': enc(rng.choice(DOMAINS[src['dom']]))}
 
 
-def gen_ops(rng, spec, max_bursts=8):
+def gen_ops(rng, spec, max_bursts=8, focus=None):
     srcs = [s for s in spec['sources']]
+    first = [s for s in srcs if s['name'] == focus]
     ops = []
     for _ in range(rng.randint(1, max_bursts)):
         for _k in range(rng.choice([1, 1, 2, 2, 3, 4])):
-            ops.append(gen_send(rng, rng.choice(srcs)))
+            if first and rng.random() < 0.6:
+                ops.append(gen_send(rng, first[0]))
+            else:
+                ops.append(gen_send(rng, rng.choice(srcs)))
         ops.append({'op': 'yield' if rng.random() < 0.25 else 'settle'})
     ops.append({'op': 'settle'})
     return ops
@@ -655,6 +860,8 @@ class Sim:
         self.not_targets = set()    # X for every '_not_X' shortcut in the plan
         self.inited = False
         self.evals = []             # names evaluated since the last driver action
+        self.last_burst = 0
+        self.abort_burst = None
         self.n_evals = 0
         self.n_changes_after_init = 0
         self.rec_log = []           # deliveries seen by recorders
@@ -705,7 +912,9 @@ class Sim:
             if ev['dest'] not in self.blocks:
                 raise PlanError('event object reference to a later block')
             dest = self.blocks[ev['dest']]
-        evobj = edzed.Event(dest, ev['etype'], efilter=filters or None)
+        cond = ev.get('cond')
+        etype = edzed.EventCond(cond.get('t'), cond.get('f')) if cond else ev['etype']
+        evobj = edzed.Event(dest, etype, efilter=filters or None)
         self.events.append((owner, ev, evobj, fobjs))
         return evobj
 
@@ -1058,11 +1267,52 @@ class Sim:
     def evals_done(self):
         """Called at a driver action: classify what the simulator did since the previous one."""
         ev = self.evals
+        self.last_burst = len(ev)
+        if self.abort_burst is None and self.circuit.error is not None:
+            self.abort_burst = len(ev)      # the burst in which the simulation ended
         if ev:
+            nblocks = len(list(self.circuit.getblocks()))
+            if len(ev) > nblocks:
+                self.run.fired('reach:burst_evaluations_above_number_of_blocks')
+            ncb = sum(1 for b in self.circuit.getblocks() if isinstance(b, edzed.CBlock))
+            if len(ev) > 3 * ncb:
+                self.run.fired('reach:burst_evaluations_above_3x_cblocks')
             if len(set(ev)) < len(ev):
                 self.run.fired('reach:glitch_reevaluation')
             self.run.beh('E', list(ev))
         self.evals = []
+
+    @staticmethod
+    def is_instability(err):
+        return isinstance(err, edzed.EdzedCircuitError) and 'instability' in str(err).lower()
+
+    def judge_abort(self, err):
+        """
+        The simulation of a valid acyclic circuit has ended with err. Returns (signature,
+        message), or None if the property does not say that this must not happen.
+        docs/errors.rst: a circuit is deemed unstable "when the change propagates through the
+        whole circuit several times". Every generated network is acyclic (event edges
+        included), so it always settles; an 'instability' verdict reached before the simulator
+        has made even two evaluations per block of the whole circuit in that burst is a false
+        one. Beyond that margin the verdict is the documented limit at work and nothing is
+        demanded (the code's constant is 3).
+        """
+        text = cerr(err)
+        if self.is_instability(err):
+            nblocks = len(list(self.circuit.getblocks()))
+            done = self.abort_burst if self.abort_burst is not None else len(self.evals)
+            if done >= 2 * nblocks:
+                self.run.fired('reach:instability_beyond_margin')
+                self.run.log('instability-beyond-margin', done, nblocks)
+                return None
+            ncb = sum(1 for b in self.circuit.getblocks() if isinstance(b, edzed.CBlock))
+            return (f"{self.prop}/false-instability",
+                    f"an acyclic network ({nblocks} blocks, {ncb} of them combinational) was "
+                    f"declared unstable after only {done} evaluations in the burst (less than "
+                    f"two per block of the circuit): {text}")
+        site = f"eval:{self.eval_exc[0]}" if self.eval_exc else 'other'
+        return (f"{self.prop}/simulation-aborted/{type(err).__name__}",
+                f"the simulation of a valid acyclic circuit ended with {text} ({site})")
 
     # ---- recorders
     def on_record(self, blk, etype, data):
@@ -1085,6 +1335,13 @@ class Sim:
             res = edzed.ExtEvent(blk, op['ev']).send(**data)
         except edzed.EdzedInvalidState as err:
             self.run.log('send-refused', op['src'], op['ev'])
+            return err
+        except edzed.EdzedUnknownEvent as err:
+            # documented as non-fatal: reported to the sender, the simulation goes on
+            self.run.log('send-unknown-event', op['src'], op['ev'], canon(data),
+                         canon(blk.output), self.circuit.is_ready())
+            if self.circuit.is_ready():
+                self.run.fired('reach:nonfatal_unknown_event_from_output_event')
             return err
         except Exception as err:    # pylint: disable=broad-except
             self.run.log('send-exc', op['src'], op['ev'], cerr(err))
@@ -1123,6 +1380,8 @@ class Sim:
             for iname, idx, ref in iter_refs(cb):
                 if ref[0] == '!':
                     users.setdefault(ref[1], set()).add(cb['name'])
+                    if ref[1][:1] in ('n', 'o', 't'):
+                        run.fired('reach:shortcut_to_name_beginning_like_not')
                     run.fired('reach:shortcut_to_sblock' if ref[1] in srcs
                               else 'reach:shortcut_to_cblock')
                 elif ref[0] == 'n' and pos[ref[1]] > pos[cb['name']]:
